@@ -28,6 +28,7 @@ def main():
     ap.add_argument("--checks", default=None); ap.add_argument("--tier", default="quick")
     ap.add_argument("--skip-tests", action="store_true")
     a = ap.parse_args()
+    a.src = os.path.abspath(a.src)
     checks = (a.checks or a.prop).split(",")
     wt = "/tmp/seed_" + a.name
     sh("git -C /repo worktree remove --force %s" % wt); shutil.rmtree(wt, ignore_errors=True)
